@@ -52,7 +52,9 @@ def make_body(spec, falsify=False):
 
         def hook(r):
             if "r" in state:
-                ex.assume_expr(r == state["r"])      # second call on the same angle: the same remainder
+                # second call: the same angle -> the same remainder; a nearby angle (no wrap-around) -> the remainder moves with it
+                ex.assume_expr(r == state["r"] + state.get("delta", 0))
+                state["r2"] = r
                 return
             state["r"] = r
             if nomod:
@@ -87,7 +89,18 @@ def make_body(spec, falsify=False):
             try:
                 a_sym = SymReal(angle)
                 nds = sp.get_angle_spec_from_float(a_sym, SymReal(tol))
-                if spec.get("twice"):
+                if spec.get("twice") == "near":
+                    # a second request for a NEARBY angle (closer than 1e-3, further than the tolerance) with the same tolerance
+                    delta = z3.Real("delta")
+                    inp.vars["delta"] = delta
+                    ex.assume_expr(delta >= R(Fraction(4, 10000)))
+                    ex.assume_expr(delta <= R(Fraction(9, 10000)))
+                    ex.assume_expr(state["r"] + delta <= R(2 * PI_F))
+                    state["delta"] = delta
+                    nds = sp.get_angle_spec_from_float(SymReal(angle + delta), SymReal(tol))
+                    if "r2" in state:
+                        state["r"] = state["r2"]
+                elif spec.get("twice"):
                     # a second request for the same angle with a tighter tolerance (state kept between calls must not leak the
                     # coarser answer); the obligations below are then about this second answer
                     tol2 = z3.Real("tol2")
@@ -281,7 +294,10 @@ def replay(harness, cex):
     for angle in candidates:
         _STATE.reset()
         try:
-            if spec.get("twice"):
+            if spec.get("twice") == "near":
+                sp.get_angle_spec_from_float(angle, tol)
+                angle = angle + float(_frac(vals["delta"]))
+            elif spec.get("twice"):
                 sp.get_angle_spec_from_float(angle, tol)
                 tol = float(_frac(vals["tol2"]))
             nds = sp.get_angle_spec_from_float(angle, tol)
@@ -367,6 +383,7 @@ def main(tier, seed):
         specs.append({"tol_lo": "1/100000000", "tol_hi": "1/100000000", "d0": 6, "d1": 13, "hunt": True, "budget": hb})
         specs.append({"tol_lo": "1/1000000", "tol_hi": "1/1000000", "d0": 8, "d1": 15, "hunt": True, "budget": hb})
     specs.append({"tol_lo": "1/100", "tol_hi": "1/10", "d0": "free", "nomod": True, "budget": 120})
+    specs.append({"tol_lo": "1/10000", "tol_hi": "12/100000", "d0": 6, "d1": "any", "twice": "near", "budget": 300})
     for d0 in ((6, 7) if th else (6,)):
         specs.append({"tol_lo": "1/1000", "tol_first_lo": "1/100", "tol_hi": "1/10", "d0": d0, "d1": "any", "twice": True, "budget": 1200})
     for axis in ("X", "Y", "Z"):
